@@ -320,7 +320,7 @@ def independent_files(ctx, quick):
     Each record carries `tail_ranges`: per Block the byte range of the file whose last 64 bytes are to be damaged."""
     rng = ctx.rng
     out = []
-    sha_lens = list(range(64, 128)) if quick else list(range(0, 192)) + [700, 1016, 1087, 2000]
+    sha_lens = list(range(64, 128)) if quick else list(range(0, 128)) + [183, 191, 700, 1016, 1087, 2000]
     crc_lens = list(range(0, 18)) if quick else list(range(0, 40)) + [255, 256, 257, 1000]
     plan = [(10, n) for n in sha_lens] + [(1, n) for n in crc_lens] + [(4, n) for n in crc_lens] + [(0, 33)]
     for (check, n) in plan:
@@ -349,7 +349,7 @@ def plan_tail(ctx, fi, f, quick):
     """The undamaged file must be accepted with the original data (for the hand-assembled files this is the statement
     "the decoder's check equals the independent implementation's"), and every single-bit flip in the last 64+ bytes of each
     Block's data and in its Check field must not be accepted with different data."""
-    cfgs = [("sd", 0), ("mt2", 8)] if quick else [("sd", 0), ("mt2", 8), ("sbd", 0), ("auto", 8), ("sd", 8)]
+    cfgs = [("sd", 0), ("mt2", 8)] if quick else [("sd", 0), ("mt2", 8), ("sbd", 0)]
     spans = []
     for (a, b) in f["tail_ranges"]:
         spans.append((max(a, b - 66), b))
@@ -980,7 +980,7 @@ def cli_stage(ctx, files):
     os.makedirs(d, exist_ok=True)
     jobs = []
     for fi, f in enumerate(files):
-        if f["fmt"] == "lzma" or f.get("large") or f.get("crafted"):
+        if f["fmt"] == "lzma" or f.get("large") or f.get("crafted") or (f.get("tail_only") and fi % 8):
             continue
         n = len(f["data"])
         for _ in range(12):
@@ -1048,7 +1048,7 @@ def cli_multifile(ctx, files, jobs):
         elif r < 0.5:
             junk = bytes([rng.randrange(1, 256)]) + bytes(rng.getrandbits(8) for _ in range(rng.randrange(0, 9)))
             pool.append((fi, f["data"] + junk, ("x", 8, "a", len(f["data"]), None)))    # trailing garbage
-    base_files = [(k, f) for k, f in enumerate(files) if not f.get("large") and not f.get("crafted")]
+    base_files = [(k, f) for k, f in enumerate(files) if not f.get("large") and not f.get("crafted") and not f.get("tail_only")]
     for (k, f) in base_files:
         if f["fmt"] == "lzma":
             pool.append((k, f["data"], ("x", 8, "w", 0, None)))
